@@ -63,6 +63,13 @@ def parseNet (tok : String) : Option Net :=
   match tok.splitOn "/" with
   | [a] => (parseIPv4 a).map fun ip => ⟨ip, 0xFFFFFFFF⟩
   | [a, l] =>
+    -- an IPv6 network (envelope: well formed, prefix length ≤ 96): `ip2int` / `ipMask2int` keep the low 32 bits of the
+    -- masked network address and of the mask, which are zero — the filter then matches any address on that side
+    if a.contains ':' then
+      match l.toNat? with
+      | some n => if n ≤ 96 then some ⟨0, 0⟩ else none
+      | none => none
+    else
     match parseIPv4 a, parsePrefixLen l with
     | some ip, some len => some ⟨ip &&& maskOfLen len, maskOfLen len⟩
     | _, _ => none
